@@ -138,7 +138,7 @@ def e_exn(name):
         return '(EBase %s)' % e_N(int(m.group(1)))
     extra = {'StopIteration': 901, 'StopAsyncIteration': 902, 'ArithmeticError': 903, 'ZeroDivisionError': 904,
              'LookupError': 905, 'OSError': 906, 'AssertionError': 907, 'RecursionError': 908, 'UnicodeError': 909,
-             'NotImplementedError': 910, 'BufferError': 911, 'EOFError': 912}
+             'NotImplementedError': 910, 'BufferError': 911, 'EOFError': 912, 'MemoryError': 913}
     if name in extra:
         return '(ECustom %s)' % e_N(extra[name])
     if name in ('GeneratorExit', 'KeyboardInterrupt', 'SystemExit'):
